@@ -15,7 +15,7 @@ advances of any length, manual resets, cache clears), unless a hypothesis says o
 
 Vocabulary: the *kind* of a request (`Out.kind`) says how it was handled — `circuitOpen` (rejected),
 `cacheHit`, `agentExc` (an agent raised), `gated e` (both agents answered; `e` is what the breaker records),
-`raised` (un-encodable prompt).  A *failure outcome* is `agentExc` or `gated failure` (`Kind.isFailure`);
+`raised` (un-encodable prompt), `aborted` (an agent's BaseException passed through).  A *failure outcome* is `agentExc` or `gated failure` (`Kind.isFailure`);
 `c08_failure_outcomes` / `c08_block_vote_never_failure` say which requests those are in terms of the agents'
 verdicts.
 -/
@@ -46,7 +46,7 @@ theorem c08_run_classification_table :
 
 /-- How an admitted request that is not answered from the cache is classified, in terms of what the agents
     did: an `Exception` of the executor — or of the assessor once the executor has answered — is a failure
-    outcome, whether or not it can be rendered as text (`excU`: the handler counts it before it fails itself);
+    outcome, whether or not it can be rendered as text (`excU`: the handler counts it first and renders it safely);
     a `BaseException` passes through `run` uncounted (`aborted`); when both answer, the outcome is what
     `classifyRun` makes of the gate's result. -/
 theorem c08_failure_outcomes (cfg : Cfg) (H : Hashes) (s : State) (p : Prompt) (zr yr : Resp)
@@ -331,12 +331,12 @@ theorem c08_probe_success_closes_and_clears (cfg : Cfg) (H : Hashes) (s : State)
       unfold consultOut at hr ⊢
       cases zr with
       | exc => simp [errorResult] at hr; subst hr; simp at hb
-      | excU => simp at hr
+      | excU => simp [errorResult] at hr; subst hr; simp at hb
       | excB => simp at hr
       | ret z =>
         cases yr with
         | exc => simp [errorResult] at hr; subst hr; simp at hb
-        | excU => simp at hr
+        | excU => simp [errorResult] at hr; subst hr; simp at hb
         | excB => simp at hr
         | ret y =>
           cases hp : p.enc <;> simp [hp] at hr ⊢
@@ -616,20 +616,21 @@ theorem c08_translation_agrees_run_structure :
 theorem c08_callbacks_run_after_the_breaker_update : Tr.run_callbacks_after_update = true := by
   decide
 
-/-- An agent exception is counted BEFORE the handler of `run` tries to render it: when an agent raises an
-    `Exception` whose `__str__` raises, `run` itself raises (no reply) — and the request is a failure outcome all
-    the same: the failure count and the total error count grow by one, the time is stamped as the last failure, and
-    the breaker moves exactly as for any other failure.  (Tie to the source: `Tr.run_exception_records_failure`,
-    the handler STARTS with the failure-recording call — `c08_translation_agrees_run_structure`.) -/
+/-- "Agent exception" as a failure outcome, whatever the exception: when an agent that is consulted raises an
+    `Exception` whose `__str__` raises, the request is answered with the blocked ERROR reply and is a failure outcome
+    like any other: the failure count and the total error count grow by one, the time is stamped as the last failure,
+    and the breaker moves exactly as `recordFailure` says.  (Tie to the source: `Tr.run_exception_records_failure`,
+    the handler STARTS with the failure-recording call — `c08_translation_agrees_run_structure`; the rendering of the
+    exception cannot fail — `c07_current_source_renders_safely`.) -/
 theorem c08_exception_counted_even_if_unprintable (cfg : Cfg) (H : Hashes) (s : State) (p : Prompt) (zr yr : Resp)
     (hadm : (run cfg H s p zr yr).2.kind ≠ .circuitOpen) (hhit : (run cfg H s p zr yr).2.kind ≠ .cacheHit)
     (hraise : (run cfg H s p zr yr).2.kind ≠ .raised)
     (hexc : zr = .excU ∨ ((∃ z, zr = .ret z) ∧ yr = .excU)) :
-    (run cfg H s p zr yr).2 = ⟨.agentExc, none⟩ ∧ (run cfg H s p zr yr).2.kind.isFailure = true ∧
+    (run cfg H s p zr yr).2 = ⟨.agentExc, some errorResult⟩ ∧ (run cfg H s p zr yr).2.kind.isFailure = true ∧
     (run cfg H s p zr yr).1.br = recordFailure cfg s.now (enter cfg s.now s.br) ∧
     (run cfg H s p zr yr).1.br.failures = s.br.failures + 1 := by
   have h := c08_failure_outcomes cfg H s p zr yr hadm hhit hraise
-  have hout : (run cfg H s p zr yr).2 = ⟨.agentExc, none⟩ := by
+  have hout : (run cfg H s p zr yr).2 = ⟨.agentExc, some errorResult⟩ := by
     rw [h.1]
     rcases hexc with rfl | ⟨⟨z, rfl⟩, rfl⟩ <;> rfl
   have hb := run_br cfg H s p zr yr
@@ -639,25 +640,74 @@ theorem c08_exception_counted_even_if_unprintable (cfg : Cfg) (H : Hashes) (s : 
   rw [hb.1]
   simp [brStep, applyKind]
 
-/-! ### payloads that cannot be rendered (`runP`) — open finding C08-unrenderable-payload-failure-uncounted -/
+/-! ### payloads that cannot be rendered (`runP`) — finding C08-unrenderable-payload-failure-uncounted, repaired -/
 
-/-- OPEN FINDING C08-unrenderable-payload-failure-uncounted, the part that holds: when every payload the gate
-    renders on this request can be rendered, `runP` is `run` — every theorem of this file applies; and in any case a
-    request whose rendering fails records NOTHING: both agents are consulted, the breaker is left as the admission
-    left it (no success, no failure), nothing is cached, nothing comes back. -/
-theorem c08_unrenderable_payload_partial (cfg : Cfg) (H : Hashes) (s : State) (p : Prompt) (zr yr : RespP) :
-    (renderFails cfg.gate zr yr = false → runP cfg H s p zr yr = run cfg H s p zr.resp yr.resp) ∧
-    (runP cfg H s p zr yr ≠ run cfg H s p zr.resp yr.resp →
-      (runP cfg H s p zr yr).2 = ⟨.raised, none⟩ ∧
-      (runP cfg H s p zr yr).1.br = (lookup cfg H s p).1.br ∧
-      (runP cfg H s p zr yr).1.cache = (lookup cfg H s p).1.cache ∧
-      (runP cfg H s p zr yr).1.execCalls = (lookup cfg H s p).1.execCalls + 1 ∧
-      (runP cfg H s p zr yr).1.assessCalls = (lookup cfg H s p).1.assessCalls + 1) := by
-  rcases runP_cases cfg H s p zr yr with h | ⟨hf, _, h⟩
-  · exact ⟨fun _ => h, fun hne => absurd h hne⟩
-  · refine ⟨fun h' => (by rw [hf] at h'; cases h'), fun _ => ?_⟩
-    rw [h]
-    simp [callAssessor, callExecutor]
+/-- "Executor failure" as a failure outcome, at full strength, WHATEVER the payloads of the two verdicts (for every
+    behaviour of `payloadOk` of either response): an executor FAILURE that nobody vetoes (the assessor does not vote
+    BLOCK; not the OR-logic case in which the assessor's PERMIT lets the request pass) on a request that is admitted,
+    not answered from the cache and whose prompt can be encoded is a failure outcome — the failure count and the total
+    error count grow by exactly one, the time is stamped as the last failure, the breaker moves as `recordFailure`
+    says (so `c08_open_after_threshold_consecutive` applies to streams of such requests), and the caller gets the
+    gate's blocked result.  (`runP true` is the code as it is: every rendering goes through `_describe` — tie:
+    `c08_gate_returns_whatever_the_payloads`, evaluated on the real gate with payloads whose `__str__` raises.) -/
+theorem c08_executor_failure_counted_whatever_the_payload (cfg : Cfg) (H : Hashes) (s : State) (p : Prompt)
+    (y : Cls) (zOk yOk : Bool) (hy : y ≠ .block) (hor : ¬(cfg.gate = .or ∧ y = .permit))
+    (hadm : (run cfg H s p (.ret .failure) (.ret y)).2.kind ≠ .circuitOpen)
+    (hhit : (run cfg H s p (.ret .failure) (.ret y)).2.kind ≠ .cacheHit) (hp : p.enc = true) :
+    (runP true cfg H s p ⟨.ret .failure, zOk⟩ ⟨.ret y, yOk⟩).2 =
+      ⟨.gated .failure, some (gateResult H cfg.gate p .failure y)⟩ ∧
+    (gateResult H cfg.gate p .failure y).blocked = true ∧
+    (runP true cfg H s p ⟨.ret .failure, zOk⟩ ⟨.ret y, yOk⟩).1.br = recordFailure cfg s.now (enter cfg s.now s.br) ∧
+    (runP true cfg H s p ⟨.ret .failure, zOk⟩ ⟨.ret y, yOk⟩).1.br.failures = s.br.failures + 1 ∧
+    (runP true cfg H s p ⟨.ret .failure, zOk⟩ ⟨.ret y, yOk⟩).1.br.totalErrors = s.br.totalErrors + 1 ∧
+    (runP true cfg H s p ⟨.ret .failure, zOk⟩ ⟨.ret y, yOk⟩).1.br.lastFailure = some s.now := by
+  show (run cfg H s p (.ret .failure) (.ret y)).2 = _ ∧ _ ∧ (run cfg H s p (.ret .failure) (.ret y)).1.br = _ ∧
+    (run cfg H s p (.ret .failure) (.ret y)).1.br.failures = _ ∧
+    (run cfg H s p (.ret .failure) (.ret y)).1.br.totalErrors = _ ∧
+    (run cfg H s p (.ret .failure) (.ret y)).1.br.lastFailure = _
+  have hev : classifyRun (applyGate cfg.gate .failure y).success (applyGate cfg.gate .failure y).blocked .failure y
+      = .failure := by
+    rw [c08_executor_failure_outcome, if_neg hy, if_neg hor]
+  have hbl : (applyGate cfg.gate .failure y).blocked = true := by
+    cases hb : (applyGate cfg.gate .failure y).blocked
+    · have := c08_unblocked_is_success cfg.gate .failure y hb
+      rw [hev] at this; cases this
+    · rfl
+  have hout : (run cfg H s p (.ret .failure) (.ret y)).2 =
+      ⟨.gated .failure, some (gateResult H cfg.gate p .failure y)⟩ := by
+    rw [run_eq] at hadm hhit ⊢
+    cases hr : rejects cfg s.now s.br
+    · simp only [hr, Bool.false_eq_true, ↓reduceIte] at hadm hhit ⊢
+      rcases afterCircuit_out cfg H { s with br := enter cfg s.now s.br } p (.ret .failure) (.ret y) with h | h | h
+      · rw [h.1]
+        simp only [consultOut, hp, ↓reduceIte, gateResult, hev]
+      · obtain ⟨_, _, _, e, _, _, _, he⟩ := h
+        rw [he] at hhit; exact absurd rfl hhit
+      · rw [hp] at h; cases h.2.1
+    · simp [hr] at hadm
+  have hb := run_br cfg H s p (.ret .failure) (.ret y)
+  have hf := (c08_failure_recorded cfg H s p (.ret .failure) (.ret y)).1
+  rw [hout] at hb hf
+  have hf' := hf rfl
+  refine ⟨hout, by simpa [gateResult] using hbl, ?_, hf'.1, hf'.2.1, hf'.2.2⟩
+  rw [hb.1]
+  simp [brStep, applyKind, applyEvent]
+
+/-- E2, evaluated on the real code on every run — the tie of `runP true` for the breaker: on every gate logic ×
+    verdict × verdict row the real `_apply_gate_logic`, called with payloads whose `__str__` raises (the executor's,
+    the assessor's, both), does not raise and returns the decision the model's `applyGate` makes, so `run` always
+    reaches its breaker-update block with that decision (complete over gate × class × class; `none` = the gate raised
+    or decided differently — what the defect repaired in /repo produces). -/
+theorem c08_gate_returns_whatever_the_payloads :
+    (∀ r ∈ GateTable.unrenderable, r.2.2.2 = some (applyGate r.1 (classify r.2.1) (classify r.2.2.1))) ∧
+    (∀ (g : Gate) (z y : Cls), ∃ r ∈ GateTable.unrenderable, r.1 = g ∧ classify r.2.1 = z ∧ classify r.2.2.1 = y) := by
+  have h : (∀ r ∈ GateTable.unrenderable, r.2.2.2 = some (applyGate r.1 (classify r.2.1) (classify r.2.2.1))) ∧
+      (∀ g ∈ allGates, ∀ z ∈ allCls, ∀ y ∈ allCls,
+        ∃ r ∈ GateTable.unrenderable, r.1 = g ∧ classify r.2.1 = z ∧ classify r.2.2.1 = y) := by
+    decide +kernel
+  refine ⟨h.1, ?_⟩
+  intro g z y
+  exact h.2 g (mem_allGates g) z (mem_allCls z) y (mem_allCls y)
 
 /-- the look-up phase never records a failure or a success: at most it moves an open breaker to half-open -/
 theorem c08_lookup_records_nothing (cfg : Cfg) (H : Hashes) (s : State) (p : Prompt) :
@@ -683,21 +733,22 @@ theorem c08_lookup_records_nothing (cfg : Cfg) (H : Hashes) (s : State) (p : Pro
       simp only [hlc]
       split <;> simp
 
--- FULL (false on the current tree): an executor FAILURE that nobody vetoes is a failure outcome, whatever its payload:
---   zr.resp = .ret .failure → yr.resp = .ret y → y ≠ .block → ¬(cfg.gate = .or ∧ y = .permit) → admitted, no cache hit →
---     (runP cfg H s p zr yr).1.br.failures = s.br.failures + 1
-/-- OPEN FINDING C08-unrenderable-payload-failure-uncounted, the witness: threshold 1, the executor reports FAILURE
-    with a payload whose `__str__` raises (`ActionProtein.payload` is `Any`).  `_apply_gate_logic` raises while
-    formatting the block reason — outside the `try` of `run` — so nothing is recorded: the breaker stays closed with
-    failure count 0 and the agents are consulted again on every further request; with a renderable payload the same
-    request opens the breaker. -/
-theorem c08_unrenderable_failure_uncounted_witness :
+/-- Witness for the shape BEFORE the fix (finding C08-unrenderable-payload-failure-uncounted, repaired in /repo):
+    threshold 1, the executor reports FAILURE with a payload whose `__str__` raises (`ActionProtein.payload` is `Any`).
+    With the block reason formatted by a bare f-string (`runP false`) `_apply_gate_logic` raised — outside the `try` of
+    `run` — so nothing was recorded: the breaker stayed closed with failure count 0 and the agents were consulted again
+    on every further request.  The code as it is (`runP true`) counts the failure and opens the breaker, exactly as
+    for a renderable payload. -/
+theorem c08_unrenderable_failure_uncounted_before_fix_witness :
     let cfg : Cfg := { threshold := 1 }
-    let bad := runP cfg idHashes init ⟨1, true⟩ ⟨.ret .failure, false⟩ ⟨.ret .other, true⟩
-    let good := runP cfg idHashes init ⟨1, true⟩ ⟨.ret .failure, true⟩ ⟨.ret .other, true⟩
+    let bad := runP false cfg idHashes init ⟨1, true⟩ ⟨.ret .failure, false⟩ ⟨.ret .other, true⟩
+    let fixed := runP true cfg idHashes init ⟨1, true⟩ ⟨.ret .failure, false⟩ ⟨.ret .other, true⟩
+    let good := runP true cfg idHashes init ⟨1, true⟩ ⟨.ret .failure, true⟩ ⟨.ret .other, true⟩
     bad.2 = ⟨.raised, none⟩ ∧ bad.1.br = {} ∧ bad.1.execCalls = 1 ∧ bad.1.assessCalls = 1 ∧
-    (runP cfg idHashes bad.1 ⟨2, true⟩ ⟨.ret .failure, false⟩ ⟨.ret .permit, true⟩).1.execCalls = 2 ∧
-    good.2.kind = .gated .failure ∧ good.1.br.cstate = .opened := by decide
+    (runP false cfg idHashes bad.1 ⟨2, true⟩ ⟨.ret .failure, false⟩ ⟨.ret .permit, true⟩).1.execCalls = 2 ∧
+    fixed.2.kind = .gated .failure ∧ fixed.1.br.cstate = .opened ∧ fixed = good ∧
+    (runP true cfg idHashes fixed.1 ⟨2, true⟩ ⟨.ret .failure, false⟩ ⟨.ret .permit, true⟩).2.kind = .circuitOpen := by
+  decide
 
 /-! ### Non-vacuity: concrete histories meeting the hypotheses -/
 
@@ -740,13 +791,21 @@ example : (exec { threshold := 1 } idHashes init [veto 1, veto 2, veto 3]).1.br.
     a cache hit admitted as probe leaves the breaker half-open -/
 example : (exec cfg2 idHashes init [ok 7, efail 1, efail 2, .adv 60, ok 7]).1.br.cstate = .halfOpen := by decide
 
-/-- two agent exceptions that cannot be rendered open the breaker at threshold 2 although neither request got a
+/-- two agent exceptions that cannot be rendered open the breaker at threshold 2; both requests got the blocked ERROR
     reply (hypotheses of `c08_exception_counted_even_if_unprintable`; `c08_open_after_threshold_consecutive` applies) -/
 example :
     let tr := exec cfg2 idHashes init [.run (pr 1) .excU (.ret .permit), .run (pr 2) (.ret .execute) .excU, ok 3]
     tr.1.br.cstate = .opened ∧ tr.1.br.failures = 2 ∧
     tr.2.map (fun o => (o.out.kind, o.out.result.isSome)) =
-      [(.agentExc, false), (.agentExc, false), (.circuitOpen, true)] := by decide
+      [(.agentExc, true), (.agentExc, true), (.circuitOpen, true)] := by decide
+
+/-- hypotheses of `c08_executor_failure_counted_whatever_the_payload` are met on the initial state under AND logic by
+    an assessor that defers (and its conclusion shown on a history: two such requests with unrenderable payloads open
+    a threshold-2 breaker) -/
+example : (run cfg2 idHashes init (pr 1) (.ret .failure) (.ret .other)).2.kind = .gated .failure ∧
+    Cls.other ≠ Cls.block ∧ ¬(cfg2.gate = .or ∧ Cls.other = Cls.permit) ∧
+    (runP true cfg2 idHashes (runP true cfg2 idHashes init (pr 1) ⟨.ret .failure, false⟩ ⟨.ret .other, false⟩).1 (pr 2)
+      ⟨.ret .failure, false⟩ ⟨.ret .permit, false⟩).1.br.cstate = .opened := by decide
 
 /-- an agent's BaseException passes through `run` uncounted -/
 example : (exec cfg2 idHashes init [.run (pr 1) .excB (.ret .permit), .run (pr 2) (.ret .execute) .excB]).1.br = {} := by
